@@ -98,6 +98,15 @@ def gen_cases(rng, tier, scale):
         kinds = tuple(rng.choice(['if', 'unless', 'if', 'with', 'each']) for _ in range(ln))
         assign = tuple(rng.choice(vals) for _ in range(ln))
         cases.append(chain_case(f'r{i}', kinds, assign, rng.random() < 0.5, rng.choice([None, 'with', 'each']), rng, ['random']))
+    # an else body that exists but is EMPTY is still the selected branch: a falsy with/each (alone or as the last chain link) renders
+    # nothing and raises nothing — in strict mode too (there the helper tells "no else" from "empty else")
+    ke = 0
+    for st in (0, 1):
+        for t, d, exp in [('[{{#with v}}W{{else}}{{/with}}]', {'v': 0}, '[]'), ('[{{#each v}}W{{else}}{{/each}}]', {'v': False}, '[]'), ('[{{#each v}}W{{^}}{{/each}}]', {'v': []}, '[]'),
+                          ('[{{#if a}}A{{else with b}}B{{else}}{{/if}}]', {'a': 0, 'b': ''}, '[]'), ('[{{#unless a}}A{{else each b}}B{{else}}{{/unless}}]', {'a': 1, 'b': False}, '[]'),
+                          ('[{{#if a}}A{{else each b}}B{{else}}{{/if}}]', {'a': 0, 'b': [1, 2]}, '[BB]'), ('[{{#with v}}W{{else}}{{! c }}{{/with}}]', {'v': None}, '[]'),
+                          ('[{{#with v}}{{else}}E{{/with}}|{{#with w}}{{else}}{{/with}}]', {'v': 1, 'w': 0}, '[|]'), ('[{{#if a}}{{else}}{{/if}}{{#unless a}}{{else}}{{/unless}}]', {'a': 0}, '[]')]:
+            cases.append(rcase(f'ee{ke}', t, d, pre=[f'strict {st}'], entry=4, kind='izchain', exp=exp, tags=['empty-else-body'] + (['strict'] if st else []))); ke += 1
     # includeZero and the subnormal witness of finding F5
     for v in [0, 1, F(0.0), F(-0.0), -1]:
         cases.append(rcase(f'z{k}', '{{#if v includeZero=true}}T{{else}}F{{/if}}|{{#unless v includeZero=true}}T{{else}}F{{/unless}}',
